@@ -51,6 +51,7 @@ func (s *Sender) Run(ctx context.Context) {
 			for {
 				if stream == nil {
 					sink = s.Sink
+					streamCancel = nil // no stream is held: a previously held stream's context must not be watched any more
 				} else {
 					// A stream is being held, don't accept another one until it is done
 					sink = nil
